@@ -1,4 +1,5 @@
 import KyupyVerif.Proofs.NetlistBF
+import KyupyVerif.Proofs.BenchText
 /-! # C11 — parsed Verilog and bench netlists simulate as the described netlist
 
 Object of the theorems: the hand-written model `KV.Netlist` (Model/Netlist.lean) of `kyupy/verilog.py` and `kyupy/bench.py`
@@ -532,5 +533,52 @@ theorem onebit_bus_index :
 example : (bench exBench).ioB = ["a", "b", "z"] ∧ (bench exBench).err = false ∧
     (bench exBench).lines = [⟨.cell "z" 0, .fork "z", none⟩, ⟨.fork "n", .cell "z" 0, none⟩, ⟨.fork "a", .cell "z" 1, none⟩,
                              ⟨.cell "n" 0, .fork "n", none⟩, ⟨.fork "b", .cell "n" 0, none⟩] := by decide +kernel
+
+/-! ## text level (lexer + grammar): bench
+
+`KV.BenchText.parseBench` (Model/BenchText.lean) reads a text the way lark reads it with the grammar of `bench.py` (contextual
+keywords, `%ignore` expression, Unicode case folding of `NAME`); `printBench` is the canonical printer. -/
+section BenchText
+open KV.BenchText
+
+/-- `bench_text_roundtrip`: for ALL statement lists whose names are `NAME`s (`validStmt`: non-empty, only `[-_a-z0-9]` in any
+case; an assignment target does not spell one of the four keywords), parsing the printed text gives the statement list back -/
+theorem bench_text_roundtrip (stmts : List BStmt) (hv : stmts.all validStmt = true) :
+    parseBench (printBench stmts) = some stmts :=
+  parse_print stmts (by simpa using hv)
+
+/-- layout independence: print the token stream of the statement list with ANY text `g0` in front and ANY gap behind each
+token, as long as every gap is ignorable text (`gapB`: blanks, tabs, form feeds, `\n`, `\r\n`, `#` comments closed by their
+`\n`) and no `NAME` is directly followed by a name character (`layoutOK`) — the parser returns the same statement list -/
+theorem bench_text_layout_irrelevant (stmts : List BStmt) (hv : stmts.all validStmt = true) (g0 : List Char)
+    (l : List (Tok × List Char)) (hl : l.map (·.1) = benchToks stmts) (hg0 : gapB .ws g0 = true) (hlay : layoutOK l = true) :
+    parseBench (String.ofList (g0 ++ renderTG l)) = some stmts := by
+  simp only [parseBench, String.toList_ofList]
+  exact parse_layout stmts (by simpa using hv) g0 l hl hg0 hlay
+
+/-- corollary: anything ignorable (blank lines, comment lines, or nothing at all) in front of the text and between the
+statements does not change the result -/
+theorem bench_text_between_statements (sg : List (BStmt × List Char)) (hv : (sg.map (·.1)).all validStmt = true)
+    (g0 : List Char) (hg0 : gapB .ws g0 = true) (hg : sg.all (fun p => gapB .ws p.2) = true) :
+    parseBench (String.ofList (g0 ++ renderTG (benchTGWith sg))) = some (sg.map (·.1)) :=
+  bench_text_layout_irrelevant (sg.map (·.1)) hv g0 (benchTGWith sg) (benchTGWith_toks sg) hg0
+    (layout_benchWith sg (by simpa using hg))
+
+/-- the hypotheses are satisfiable; the printed text -/
+example : [BStmt.intf ["a", "b"], .intf ["z"], .gate "z" "NAND" ["n-1", "a"], .gate "n-1" "not" ["b"], .gate "K" "__const1__" []].all
+    validStmt = true := by decide +kernel
+example : printBench [.intf ["a", "b"], .intf ["z"], .gate "z" "NAND" ["n-1", "a"], .gate "n-1" "not" ["b"]] =
+    "INPUT(a, b)\nINPUT(z)\nz = NAND(n-1, a)\nn-1 = not(b)\n" := by decide +kernel
+/-- concrete texts: comments, `\r\n`, no blanks at all, keywords in non-keyword positions -/
+example : parseBench "# c17\r\nINPUT(a,b)  OUTPUT ( z )\n\tz=NAND(n-1 , a)#x\nn-1 = not(b)" =
+    some [.intf ["a", "b"], .intf ["z"], .gate "z" "NAND" ["n-1", "a"], .gate "n-1" "not" ["b"]] := by decide +kernel
+example : parseBench "input()x=INPUT(OUTPUT,input)" = some [.intf [], .gate "x" "INPUT" ["OUTPUT", "input"]] := by decide +kernel
+/-- rejected: a keyword as assignment target, a lone `\r`, a missing comma, a name character outside the class -/
+example : parseBench "INPUT = AND(a)" = none ∧ parseBench "INPUT(a)\rOUTPUT(z)" = none ∧ parseBench "z = AND(a b)" = none ∧
+    parseBench "z = AND(a.b)" = none := by decide +kernel
+/-- a layout with gaps of all kinds -/
+example : gapB .ws "  # comment\r\n\t\x0c\n".toList = true ∧ gapB .ws "# open comment".toList = false ∧ gapB .ws "\r".toList = false := by
+  decide +kernel
+end BenchText
 
 end KV.C11
